@@ -496,7 +496,10 @@ class Session:
             if wexc != "ok":
                 st["c08_error_cases"] += 1
                 if exc == "ok":
-                    self.fail("C08", "selector-should-raise", {"index": col, "sel": sel, "want": wexc, "got": val})
+                    # D24's signature is about the SHAPE of the selector (exact-label fast path of a count selector), whatever
+                    # the observable difference: another row, or a row where the documented reading has none
+                    self.fail("C08", "selector-should-raise", {"index": col, "sel": sel, "want": wexc, "got": val},
+                              "D24" if self.label_shadow(col, sel) else None)
                 return
             if any(not (-n <= i < n) for i in want):
                 st["c08_out_of_scope"] += 1
@@ -534,8 +537,8 @@ class Session:
 
     @staticmethod
     def label_shadow(col, sel):
-        """D24's signature: a count selector whose name part is literally an existing name and also
-        matches a different name case-insensitively"""
+        """D24's signature: a count selector whose name part is literally an existing name and either also matches a
+        different name case-insensitively or does not match itself (`TableM.count_selector_documented_iff`)"""
         def one(s):
             if s[0] == "pat":
                 try:
@@ -548,7 +551,9 @@ class Session:
                     rx = re.compile(nm, re.IGNORECASE)
                 except re.error:
                     return False
-                return any(x != nm and rx.fullmatch(x) for x in col)
+                # either trigger of the exact-label fast path: another name matches as well, or the literal name is a row
+                # name that its own regular expression does not match (a row name containing metacharacters)
+                return any(x != nm and rx.fullmatch(x) for x in col) or not rx.fullmatch(nm)
             if s[0] == "tuple":
                 return any(one(x) for x in s[1])
             return False
@@ -586,6 +591,8 @@ def add_matches(op, names):
 
 def gen_table(rng, nmax=8, alphabet=None):
     n = rng.randint(0, nmax)
+    if alphabet is None and rng.random() < 0.1:
+        alphabet = ["a+", "aa", "a", "a.", "ab"][: rng.randint(2, 5)]    # row names that are regular expressions themselves
     al = alphabet or NAMES[: rng.randint(2, 5)]
     return {"op": "new", "index": "name",
             "cols": [["name", [rng.choice(al) for _ in range(n)]],
